@@ -758,12 +758,80 @@ def neg_ok(prog, g):
     return True
 
 
+def gen_wide(rng, name):
+    """'wide' family: SPARSE BUT WIDE parameter spaces — 2-4 range parameters with 2-3 values each (<= ~50 instances) whose
+    [min..max] extents are large (large |min| / max, large steps, negative bounds): the product of the extents is spread over
+    2^20 .. 2^62, so the strides of make_key exceed 32 bits while NoOverflow still holds (keys must be distinct and print
+    correctly).  A chain along one parameter makes the runtime use the keys in its dependency hash tables and repositories."""
+    ncls = rng.choice([1, 1, 2])
+    classes = []
+    for ci in range(ncls):
+        suffix = str(ci)
+        np_ = rng.choice([2, 3, 3, 4])
+        total = rng.range(20, 62)
+        # split the exponent: every extent <= 2^29 (so that max-min+1 and hi+step fit an int), small last parameter sometimes
+        small_last = rng.chance(1, 2)
+        nwide = np_ - 1 if small_last else np_
+        exps = []
+        rest = min(total, 29 * nwide)
+        for i in range(nwide):
+            left = nwide - i - 1
+            lo_e = max(2, rest - 29 * left)
+            hi_e = min(29, rest - 2 * left)
+            e = rng.range(lo_e, max(lo_e, hi_e)) if i < nwide - 1 else max(2, min(29, rest))
+            exps.append(e)
+            rest -= e
+        for i in range(len(exps) - 1, 0, -1):
+            j = rng.below(i + 1); exps[i], exps[j] = exps[j], exps[i]
+        locs = []
+        for i, e in enumerate(exps):
+            nv = rng.choice([2, 2, 3])
+            extent = (1 << e) - rng.below(1 << max(0, e - 3))          # ~2^e
+            step = max(1, (extent - 1) // (nv - 1))
+            span = step * (nv - 1)
+            r = rng.below(4)
+            lo = -(span // 2) - rng.below(3) if r < 2 else (-span - rng.below(1 << max(1, e - 2)) if r == 2 else rng.below(1 << max(1, e - 2)))
+            locs.append({'kind': 'R', 'name': LETTERS[i] + suffix, 'param': True, 'lo': C(lo), 'hi': C(lo + span + rng.below(min(step, 7))), 'step': C(step)})
+        if small_last:
+            locs.append({'kind': 'R', 'name': LETTERS[len(exps)] + suffix, 'param': True, 'lo': C(rng.range(-1, 1)), 'hi': C(rng.range(1, 2)), 'step': C(1)})
+        if rng.chance(1, 3):          # an expression-defined local / parameter in the middle
+            pos = rng.range(1, len(locs) - 1)
+            locs.insert(pos, {'kind': 'D', 'name': 'd0' + suffix, 'param': rng.chance(1, 3),
+                              'e': rng.choice([('/', V(pos - 1), C(rng.choice([2, 3, -2]))), ('-', V(0), C(rng.range(1, 9)))])})
+        nl = len(locs)
+        c = {'name': 'T%d' % ci, 'locals': locs, 'flows': [], 'place': V(rng.below(nl)), 'prio': None, 'from': None, 'extra': False}
+        # a data chain (or CTL chain) along one range parameter
+        ks = [i for i, l in enumerate(locs) if l['kind'] == 'R']
+        for fi in range(rng.choice([1, 1, 2])):
+            ki = rng.choice(ks)
+            k = locs[ki]
+            sh = k['step']
+            ing, outg = ('>=', sub(V(ki), sh), k['lo']), ('<=', add(V(ki), sh), k['hi'])
+            prev = ('t', ci, fi, target_args(locs, ki, ('-', C(0), sh)))
+            nxt = ('t', ci, fi, target_args(locs, ki, sh))
+            if rng.chance(1, 4):
+                c['flows'].append({'acc': 'CTL', 'name': 'S%d_%d' % (ci, fi), 'ins': [{'g': ing, 't': prev, 'f': None}], 'outs': [{'g': outg, 't': nxt, 'f': None}]})
+            else:
+                c['flows'].append({'acc': 'RW', 'name': 'X%d_%d' % (ci, fi), 'ins': [{'g': ing, 't': prev, 'f': rng.choice([('m', None), ('new',)])}],
+                                   'outs': [{'g': outg, 't': nxt, 'f': ('m', None) if rng.chance(1, 2) else None}]})
+        fix_mem(c)
+        classes.append(c)
+    for c in classes:
+        for l in c['locals']:
+            if l['kind'] == 'R' and (l['hi'][1] + l['step'][1] >= 2**31 - 8 or l['lo'][1] <= -2**31 + 8):
+                return None       # the loop increment itself would overflow an int
+    prog = Program(name, 1, classes, [[0]], 'wide')
+    if prog.shape_ok([0], max_total=60, max_cls=50) in (None, 0):
+        return None
+    return prog
+
+
 def gen_programs(rng, n, mode, prefix, derived_params=True):
     """n programs named <prefix>0.. (rejected draws are retried on the next fork of the stream)"""
     out = []
     k = 0
     while len(out) < n and k < 50 * n + 50:
-        p = gen_program(rng.fork(k), '%s%d' % (prefix, len(out)), mode, derived_params=derived_params)
+        p = gen_wide(rng.fork(k), '%s%d' % (prefix, len(out))) if mode == 'wide' else gen_program(rng.fork(k), '%s%d' % (prefix, len(out)), mode, derived_params=derived_params)
         k += 1
         if p is not None:
             out.append(p)
